@@ -3,6 +3,14 @@
 import json, os
 V = "/verif/seeded"
 WHAT = {
+ "C01-d": "J_scale without conversion to base units: the injected current is off by the prefix ratio of current and length units (mA with um)",
+ "C03-d": "PARDISO back end re-wraps the CSC buffers of the scalar Laplacian as CSR: the Poisson matrix becomes the transpose",
+ "C04-d": "MeshOperators caches the normalised edge directions: refreshed link variables use unit vectors instead of edge vectors",
+ "C06-d": "Device.terminal_info() cached and never invalidated: after re-meshing the solver pins the old mesh's site numbers",
+ "C07-d": "shift back from the centred frame moved to the end of generate_mesh, missing on the early-return path (off-centre devices, no refinement)",
+ "C09-d": "a progress-reporting guard re-uses the local name dt: the elapsed wall-clock time is handed to update() as the previous time step",
+ "C10-d": "screening loop refreshes the operators with the previous step's applied potential (A_applied instead of current_A_applied)",
+ "C14-d": "None-valued option names joined with ', ' but split on ',' and filtered: every None option after the first reloads as its default",
  "C01-a": "`break` instead of `continue` in update_mu_boundary: terminals after an unchanged one keep stale boundary currents",
  "C01-b": "Device.terminal_info() cached: stale terminal sites / edges / lengths after the device is re-meshed",
  "C02-a": "retry loop re-runs the kernel with the un-reduced dt and reports the reduced one",
